@@ -33,10 +33,10 @@ LEVEL_NOTE = ('Texts are the listed alphabet (plus all single code points for '
               'for `incoming` is driven through a stand-in sys.stdin with '
               'encoding ascii / utf-8 / None.')
 
-TEXTS = ['', 'plain ascii', 'café üñî', '中文字', '\U0001f600 astral \U0001d400',
+TEXTS = ['', '\ufeffbom first', 'plain ascii', 'café üñî', '中文字', '\U0001f600 astral \U0001d400',
          'é combining', 'nul\x00inside', 'ﬁ ǅ İ ½', '  spaces\t\n  ',
          'a--b---c', '™℃№', 'ASCII ONLY 123 ~!@#']
-RAW_BYTES = [b'', b'\xff\xfe\xfd', b'\x80abc', b'caf\xe9', b'\xc3\xa9', b'\xe4\xb8\xad', b'abc',
+RAW_BYTES = [b'', b'\xef\xbb\xbfabc', b'\xef\xbb\xbf', b'\xff\xfe\xfd', b'\x80abc', b'caf\xe9', b'\xc3\xa9', b'\xe4\xb8\xad', b'abc',
              b'\x00\xd8\x00\xdc', b'\xf0\x9f\x98\x80', b'\xc3']
 ENCODINGS = ['utf-8', 'UTF-8', 'utf8', 'utf-16', 'utf-32', 'latin-1', 'ascii', 'cp1252',
              'shift_jis', 'Latin-1', 'ASCII']
